@@ -4,6 +4,8 @@ mod c13;
 mod c15;
 mod c06;
 mod c07;
+mod c09;
+mod c08;
 mod animgen;
 mod webpfile;
 mod oracle;
@@ -67,6 +69,8 @@ fn main() {
         "C15" => c15::run(&o),
         "C06" => c06::run(&o),
         "C07" => c07::run(&o),
+        "C09" => c09::run(&o),
+        "C08" => c08::run(&o),
         _ => {
             eprintln!("unknown property {prop}");
             std::process::exit(2);
